@@ -374,3 +374,67 @@ Proof.
     + intros (x & Hx & Hin). apply filter_In in Hin as [Hin Hp]. exists x. subst l. split; [apply merged_nearest; exact Hin|auto].
     + intros (x & Hg & Hs & Hp). exists x. split; [exact Hs|]. apply filter_In. split; [eapply merged_complete; exact Hg|exact Hp].
 Qed.
+
+(* the direct statement for a plain identifier: the nearest table of the chain that declares the
+   name (ignoring case) decides, with its most recent declaration of it; that symbol is the symbol
+   of a visited declaration node, its selection range the range of the node's name token *)
+Theorem lookup_direct t ch id :
+  (forall U, In U ch -> In U (tables_of false t)) ->
+  match lookup ch id with
+  | Some (T, a) =>
+      (exists pre post, ch = pre ++ T :: post /\ Forall (fun U => Forall (fun b => named id b = false) (t_syms U)) pre) /\
+      named id a = true /\
+      (exists A1 A2, t_syms T = A1 ++ a :: A2 /\ Forall (fun b => named id b = false) A2) /\
+      (exists p, In p (visit_seq false t) /\ declares p a)
+  | None => Forall (fun U => Forall (fun b => named id b = false) (t_syms U)) ch
+  end.
+Proof.
+  intro Hch. pose proof (lookup_nearest ch id) as H. destruct (lookup ch id) as [[T a]|].
+  - destruct H as (pre & post & Hc & Hpre & Hf). pose proof (find_in_latest T id) as HL. rewrite Hf in HL.
+    destruct HL as (Hn & A1 & A2 & HT & Hall). split; [|split; [exact Hn|split; [exists A1, A2; auto|]]].
+    + exists pre, post. split; [exact Hc|]. eapply Forall_impl; [|exact Hpre]. intros U HU.
+      pose proof (find_in_latest U id) as HU'. rewrite HU in HU'. exact HU'.
+    + assert (HinT : In T (tables_of false t)) by (apply Hch; rewrite Hc; apply in_or_app; right; left; reflexivity).
+      assert (Hina : In a (t_syms T)) by (rewrite HT; apply in_or_app; right; left; reflexivity).
+      destruct (annot_selection_is_declared_name false t T a HinT Hina) as (p & Hp & Hd & _). exists p. auto.
+  - eapply Forall_impl; [|exact H]. intros U HU. pose proof (find_in_latest U id) as HU'. rewrite HU in HU'. exact HU'.
+Qed.
+
+(* the chain the services use is made of tables of the document *)
+Lemma chain_for_tables t steps ch : chain_for t steps = Some ch -> forall U, In U ch -> In U (tables_of false t).
+Proof.
+  unfold chain_for, tables_of, root_table_of, method_tables_of. intros H U HU.
+  destruct steps as [|[i c] r].
+  - inversion H; subst. destruct HU as [<-|[]]. left. reflexivity.
+  - destruct (is_method_node c).
+    + destruct (nth_error (st_done (annotate false t)) _) as [mt|] eqn:E; [|discriminate]. inversion H; subst.
+      destruct HU as [<-|[<-|[]]]; [right; eapply nth_error_In; exact E|left; reflexivity].
+    + inversion H; subst. destruct HU as [<-|[]]. left. reflexivity.
+Qed.
+
+(* where get_definition takes the plain branch: not under a dot, not a declared name *)
+Theorem definition_plain_case t stem p idx enc pi q up ch :
+  flat_methods t = true -> chain_for t (descend p t) = Some ch ->
+  path_up p t = (idx, enc) :: (pi, q) :: up ->
+  is_dot q = false -> (is_method_node q && Nat.eqb idx 0) = false -> is_member_decl enc = false ->
+  definition t stem p =
+  match get_id enc p with
+  | None => Ans []
+  | Some id =>
+      match lookup ch id with
+      | Some (T, a) => if indexed1 stem (cls_str T) then Ans [(a_sel a, a_range a)] else Ans []
+      | None => if foreign t then Outside else Ans []
+      end
+  end.
+Proof.
+  intros Hf Hc Hp Hd Hm He. unfold definition. rewrite Hf, Hc, Hp. cbn [negb]. rewrite Hd, Hm, He. reflexivity.
+Qed.
+
+(* where generate_completion_proposals lists the plain names: not on a dot, not under one *)
+Theorem completion_plain_case t stem p idx enc pi q up ch :
+  flat_methods t = true -> chain_for t (descend p t) = Some ch ->
+  path_up p t = (idx, enc) :: (pi, q) :: up -> is_dot enc = false -> is_dot q = false ->
+  completion t stem p = if foreign_parent t then Outside else Ans (labels_lhs ch).
+Proof.
+  intros Hf Hc Hp He Hq. unfold completion. rewrite Hf, Hc, Hp. cbn [negb]. rewrite He, Hq. reflexivity.
+Qed.
